@@ -287,3 +287,92 @@ def blockLines (opLine : String) (r : Res) (effs : List Effect) (s : State) : Li
   ["OP " ++ opLine, resStr r] ++ effs.map effStr ++ sortLines (stateLines s) ++ ["END"]
 
 end SM.Wire
+
+/-! ### parsing a state dump back into a `State` (monitor mode) -/
+namespace SM.Wire
+open SM
+
+def unDash (s : String) : String := if s = "-" then "" else s
+
+def feeOfStr (s : String) : Option Nat := if s = "-" then some 0 else parseNat s
+
+/-- add one state line to a state under construction; `none` = the line does not parse -/
+def addStateLine (s : State) (line : String) : Option State :=
+  match (line.splitOn " ") with
+  | ["H", h, t] => do pure { s with height := ← parseInt h, time := ← parseInt t }
+  | ["S", n] => do pure { s with bank := { s.bank with supply := ← parseInt n } }
+  | ["A", a, n] => do pure { s with bank := { s.bank with bal := s.bank.bal ++ [(unDash a, ← parseNat n)] } }
+  | ["D", name, author] => pure { s with defs := s.defs ++ [(name, { author := unDash author })] }
+  | ["B", svc, prov, owner, dep, avail, dis, qos, price, pt, pv] => do
+    let b : Binding := {
+      owner := unDash owner, deposit := ← parseNat dep, avail := ← boolOf avail,
+      disabledAt := ← timeOf dis, qos := ← parseNat qos,
+      text := { price := price, promT := ← parsePromT pt, promV := ← parsePromV pv } }
+    pure { s with bindings := s.bindings ++ [((svc, unDash prov), b)] }
+  | ["OB", o, svc, p] => pure { s with ownerBind := s.ownerBind ++ [(unDash o, svc, unDash p)] }
+  | ["OW", p, o] => pure { s with owner := s.owner ++ [(unDash p, unDash o)] }
+  | ["PO", o, p] => pure { s with ownerProv := s.ownerProv ++ [(unDash o, unDash p)] }
+  | ["PR", svc, p, base, pt, pv] => do
+    pure { s with pricing := s.pricing ++ [((svc, unDash p), { base := ← parseNat base, promT := ← parsePromT pt, promV := ← parsePromV pv })] }
+  | ["WD", o, a] => pure { s with withdraw := s.withdraw ++ [(unDash o, unDash a)] }
+  | ["CX", id, svc, provs, cons, cap, timeout, sup, rep, freq, total, batch, reqN, respN, bthr, bst, st, thr, mod] => do
+    let x : Ctx := {
+      svc := unDash svc, provs := listOf provs, cons := unDash cons, cap := ← feeOfStr cap,
+      timeout := ← parseInt timeout, super := ← boolOf sup, rep := ← boolOf rep, freq := ← parseNat freq,
+      total := ← parseInt total, batch := ← parseNat batch, reqN := ← parseNat reqN, respN := ← parseNat respN,
+      bthr := ← parseNat bthr, bstate := ← batchStateOf bst, state := ← ctxStateOf st,
+      thr := ← parseNat thr, mod := unDash mod }
+    pure { s with ctxs := s.ctxs ++ [(← ctxIdOfHex id, x)] }
+  | ["XQ", h, id] => do pure { s with expQ := s.expQ ++ [(← parseInt h, ← ctxIdOfHex id)] }
+  | ["NQ", h, id] => do pure { s with newQ := s.newQ ++ [(← parseInt h, ← ctxIdOfHex id)] }
+  | ["XH", id, h] => do pure { s with expH := s.expH ++ [(← ctxIdOfHex id, ← parseInt h)] }
+  | ["NH", id, h] => do pure { s with newH := s.newH ++ [(← ctxIdOfHex id, ← parseInt h)] }
+  | ["RQ", id, ctx, batch, prov, fee, reqH, expH] => do
+    let r ← reqIdOfHex id
+    -- the record's own context / batch fields must agree with the id (else the dump is inconsistent)
+    if hexOfCtxId r.ctx ≠ ctx ∨ toString r.batch ≠ batch then none
+    pure { s with reqs := s.reqs ++ [(r, { prov := unDash prov, fee := ← feeOfStr fee, reqH := ← parseInt reqH, expH := ← parseInt expH })] }
+  | ["AB", svc, prov, expH, id] => do
+    pure { s with activeB := s.activeB ++ [(svc, unDash prov, ← parseInt expH, ← reqIdOfHex id)] }
+  | ["AI", id] => do pure { s with activeI := s.activeI ++ [← reqIdOfHex id] }
+  | ["RS", id, prov, cons, code, out, ctx, batch] => do
+    let r ← reqIdOfHex id
+    if hexOfCtxId r.ctx ≠ ctx ∨ toString r.batch ≠ batch then none
+    pure { s with resps := s.resps ++ [(r, { prov := unDash prov, cons := unDash cons, code := ← parseNat code, out := ← outOf out })] }
+  | ["VO", cons, svc, prov, n] => do
+    pure { s with volume := s.volume ++ [((unDash cons, svc, unDash prov), ← parseNat n)] }
+  | ["EF", p, n] => do pure { s with earned := s.earned ++ [(unDash p, ← parseNat n)] }
+  | ["OE", o, n] => do pure { s with ownerEarned := s.ownerEarned ++ [(unDash o, ← parseNat n)] }
+  | _ => none
+
+/-- an empty state carrying the configuration -/
+def emptyState (cfg : Config) (params : Params) : State := genesis cfg params 0 0
+
+/-- parse the state lines of one block; returns the state and the lines that did not parse -/
+def parseState (cfg : Config) (params : Params) (lines : List String) : State × List String :=
+  lines.foldl (fun (acc : State × List String) l =>
+    match addStateLine acc.1 l with
+    | some s' => (s', acc.2)
+    | none => (acc.1, acc.2 ++ [l])) (emptyState cfg params, [])
+
+/-- parse an effect line (`E …`) -/
+def parseEffect (line : String) : Option Effect :=
+  match line.splitOn " " with
+  | ["E", "transfer", a, b, n] => do pure (.transfer (unDash a) (unDash b) (← parseNat n))
+  | ["E", "slash", r, p, n] => do pure (.slash (← reqIdOfHex r) (unDash p) (← parseNat n))
+  | ["E", "ev", "new_batch_request", c, n] => do pure (.evReqs (← ctxIdOfHex c) (← parseNat n))
+  | ["E", "ev", k, c] => do pure (.ev k (← ctxIdOfHex c))
+  | ["E", "respcb", c, outs, f] => do
+    pure (.respcb (← ctxIdOfHex c) (← (listOf outs).mapM outOf) (← boolOf f))
+  | ["E", "statecb", c] => do pure (.statecb (← ctxIdOfHex c))
+  | _ => none
+
+def parseRes (line : String) : Option Res :=
+  match line.splitOn " " with
+  | ["R", "ok"] => some .ok
+  | ["R", "invalid"] => some .invalid
+  | "R" :: "err" :: _ => some (.err .invalidRequest)      -- the class only; the name is compared by the diff
+  | "R" :: "panic" :: rest => some (.panic (" ".intercalate rest))
+  | _ => none
+
+end SM.Wire
